@@ -40,7 +40,7 @@ def restart_invisible_full : Prop :=
 
 def by0p : Cl := initCl 2 true 5 [0, 1, 2] [0, 1] 1
 def cA : Ev := { n := 1, ts := 20, idnum := 7, cipher := 1, sender := 1, path := [], kind := .commit .selfUpdate [] }
-def cB : Ev := { n := 2, ts := 19, idnum := 9, cipher := 2, sender := 0, path := [], kind := .commit (.setName 4) [] }
+def cB : Ev := { n := 2, ts := 19, idnum := 9, cipher := 2, sender := 0, path := [], kind := .commit (.setData { initData [0, 1] 1 with name := 4 }) [] }
 
 /-- `hydrated-timestamp-zero`: apply A, restart, the better B arrives: refused; without the restart it wins -/
 theorem restart_invisible_full_false : ¬ restart_invisible_full := by
